@@ -147,6 +147,8 @@ class Den:
                 return transpose(self.ev(e.args[0]))
             if name in ("np.dot", "np.matmul") and len(e.args) == 2:
                 return mul(self.ev(e.args[0]), self.ev(e.args[1]))
+            if name in ("np.asarray", "np.array", "np.asanyarray", "np.ascontiguousarray", "np.copy") and e.args:
+                return self.ev(e.args[0])  # the same matrix in another container / dtype
         if isinstance(e, ast.Name) and self.resolve is not None:
             r = self.resolve(e)
             if r is not None:
